@@ -382,9 +382,9 @@ func c18EnumStrings(atoms []string, maxLen int, shard, nshards int, idx *int, em
 
 func c18Enum(yield func(interface{}) bool) {
 	shard, nshards := lib.EnvInt("VERIF_SHARD", 0), lib.EnvInt("VERIF_NSHARDS", 1)
-	n := 5
+	n, nOwn := 5, 4
 	if lib.Tier() == "thorough" {
-		n = 7
+		n, nOwn = 8, 5
 	}
 	idx := 0
 	for _, st := range c18Styles {
@@ -404,7 +404,7 @@ func c18Enum(yield func(interface{}) bool) {
 				}
 			}
 		}
-		if !c18EnumStrings(atoms, 4, shard, nshards, &idx, func(s string) bool { return yield(&c18Case{Lang: li, Src: []byte(s)}) }) {
+		if !c18EnumStrings(atoms, nOwn, shard, nshards, &idx, func(s string) bool { return yield(&c18Case{Lang: li, Src: []byte(s)}) }) {
 			return
 		}
 		// the same delimiters next to their look-alikes: every byte replaced by the Cyrillic rune with that low byte
@@ -418,7 +418,7 @@ func c18Enum(yield func(interface{}) bool) {
 		if len(al) > 8 {
 			al = al[:8]
 		}
-		if !c18EnumStrings(al, 4, shard, nshards, &idx, func(s string) bool { return yield(&c18Case{Lang: li, Src: []byte(s)}) }) {
+		if !c18EnumStrings(al, nOwn, shard, nshards, &idx, func(s string) bool { return yield(&c18Case{Lang: li, Src: []byte(s)}) }) {
 			return
 		}
 	}
@@ -540,7 +540,7 @@ var c18Direct bool
 
 func TestVerif_C18_Enum(t *testing.T) {
 	lib.Run(t, lib.Spec{ID: "C18", Part: "small-scope",
-		Rule: "exhaustive: all strings of up to 5 (quick) / 7 (thorough) atoms over a delimiter-rich alphabet of 8 atoms (delimiters, their proper prefixes, quotes, backslash, newline, a letter, a blank) for 19 style/language configurations, plus every one of the languages at up to 4 atoms over the delimiters of its own tables; oracle: Parse == reference lexer (comments, text, 1-based lines), no panic, returns within the budget; ChunkIterator delivers every comment once, in order, split exactly where start lines are more than one apart; non-trivial = the reference finds a comment or the source has a quote",
+		Rule: "exhaustive: all strings of up to 5 (quick) / 8 (thorough) atoms over a delimiter-rich alphabet of 8 atoms (delimiters, their proper prefixes, quotes, backslash, newline, a letter, a blank) for 19 style/language configurations, plus every one of the languages at up to 4 (quick) / 5 (thorough) atoms over the delimiters of its own tables and over those delimiters next to their look-alike runes; oracle: Parse == reference lexer (comments, text, 1-based lines), no panic, returns within the budget; ChunkIterator delivers every comment once, in order, split exactly where start lines are more than one apart; non-trivial = the reference finds a comment or the source has a quote",
 		New:  func() interface{} { return &c18Case{} }, Enum: c18Enum, Exhaustive: true,
 		Check: c18EnumCheck})
 }
